@@ -163,3 +163,41 @@ func TestDebugI04(t *testing.T) {
 	}
 	fmt.Println("violating schedules:", found)
 }
+
+// TestDebugJ01 drives "release API has checked the pod, then the next incarnation is created and bound" (development aid).
+func TestDebugJ01(t *testing.T) {
+	if os.Getenv("VERIF_DEBUG_J01") == "" {
+		t.Skip()
+	}
+	topo := Topo{Pools: []PoolT{{NodeSubnets: []string{"10.49.27.0/24"}, Subnet: "10.0.70.0/24", Gateway: "10.0.70.1",
+		Ranges: [][2]uint32{{0x0a004602, 0x0a004606}}}}, Nodes: []NodeT{{Name: "n0", IP: "10.49.27.3"}, {Name: "n1", IP: "10.49.27.4"}}}
+	found := 0
+	for k := 1; k <= 12; k++ {
+		var sched []int
+		for i := 0; i < k; i++ {
+			sched = append(sched, 0)
+		}
+		for i := 0; i < 80; i++ {
+			sched = append(sched, 1)
+		}
+		c := Case{Topo: topo, WLs: []WL{{Kind: "sts", Name: "s0", Policy: "never", Replicas: 1}}, Lag: false,
+			Ops: []Op{{K: "create"}, {K: "sched", B: 63}, {K: "delete"}, {K: "deliver"}, {K: "deliver"}, {K: "unbind"},
+				{K: "episode", Sub: []Op{{K: "apirelease"}, {K: "newsched"}}, Sched: sched},
+				{K: "create", A: 1}, {K: "sched", B: 63}, {K: "create", A: 2}, {K: "sched", B: 63}, {K: "resync"}}}
+		r := &vcore.Rec{}
+		_, f := runHistory(c, r, &ObsC01{}, &ObsC04{})
+		if f != nil {
+			found++
+		}
+		if f != nil && found == 1 || k == 4 {
+			fmt.Printf("==== k=%d f=%v\n", k, f)
+			for _, l := range r.Trace() {
+				if len(l) > 500 {
+					l = l[:500]
+				}
+				fmt.Println(l)
+			}
+		}
+	}
+	fmt.Println("violating schedules:", found)
+}
